@@ -175,7 +175,7 @@ func (tty *stdIoTty) NotifyResize(cb func()) {
 // NewStdioTty opens a tty using standard input/output.
 func NewStdIoTty() (Tty, error) {
 	tty := &stdIoTty{
-		sig: make(chan os.Signal),
+		sig: make(chan os.Signal, 1),
 		in:  os.Stdin,
 		out: os.Stdout,
 	}
